@@ -47,6 +47,8 @@ pub struct Chunk {
     /// Does the reference editor submit a line on this Enter (the child then leaves raw mode,
     /// runs the line and comes back)?
     pub submits: bool,
+    /// Written together with the next chunk in one `write` (a paste, or fast typing ahead).
+    pub with_next: bool,
 }
 
 #[derive(Debug, Default)]
@@ -61,7 +63,7 @@ pub struct PtyRun {
     pub spawn_error: Option<String>,
 }
 
-fn open_pty() -> Result<(OwnedFd, OwnedFd), String> {
+fn open_pty(cols: u16) -> Result<(OwnedFd, OwnedFd), String> {
     unsafe {
         let master = libc::posix_openpt(libc::O_RDWR | libc::O_NOCTTY | libc::O_CLOEXEC);
         if master < 0 {
@@ -82,7 +84,7 @@ fn open_pty() -> Result<(OwnedFd, OwnedFd), String> {
         let slave = OwnedFd::from_raw_fd(slave);
         let size = libc::winsize {
             ws_row: 24,
-            ws_col: 200,
+            ws_col: cols,
             ws_xpixel: 0,
             ws_ypixel: 0,
         };
@@ -131,7 +133,7 @@ fn newlines(stdout: &[u8]) -> usize {
 
 /// Run `lace debug <asm>` on a pty, typing `chunks`. `history_before`: contents of the history
 /// file before the session (`None`: no file).
-pub fn run_pty(scratch: &Scratch, asm: &Path, minimal: bool, history_before: Option<&[u8]>, chunks: &[Chunk]) -> PtyRun {
+pub fn run_pty(scratch: &Scratch, asm: &Path, minimal: bool, cols: u16, history_before: Option<&[u8]>, chunks: &[Chunk]) -> PtyRun {
     let mut run = PtyRun::default();
     let cache = scratch.path("cache");
     let _ = std::fs::create_dir_all(&cache);
@@ -140,7 +142,7 @@ pub fn run_pty(scratch: &Scratch, asm: &Path, minimal: bool, history_before: Opt
     if let Some(bytes) = history_before {
         let _ = std::fs::write(&history_file, bytes);
     }
-    let (master, slave) = match open_pty() {
+    let (master, slave) = match open_pty(cols) {
         Ok(p) => p,
         Err(e) => {
             run.spawn_error = Some(e);
@@ -223,21 +225,30 @@ pub fn run_pty(scratch: &Scratch, asm: &Path, minimal: bool, history_before: Opt
 
     let mut ok = wait(&mut run, &mut child, &mut exited, "raw mode before the first key", &|_| is_raw(m));
     let mut enters = 0usize;
+    let mut pending: Vec<u8> = Vec::new();
+    let mut pending_submits = false;
     for (i, chunk) in chunks.iter().enumerate() {
         if !ok || exited.is_some() {
             break;
         }
-        let written = unsafe { libc::write(m, chunk.bytes.as_ptr() as *const libc::c_void, chunk.bytes.len()) };
-        if written != chunk.bytes.len() as isize {
+        pending.extend_from_slice(&chunk.bytes);
+        pending_submits |= chunk.submits;
+        enters += 1;
+        if chunk.with_next && i + 1 < chunks.len() && pending.len() < 700 {
+            continue;
+        }
+        let written = unsafe { libc::write(m, pending.as_ptr() as *const libc::c_void, pending.len()) };
+        if written != pending.len() as isize {
             run.stalled = Some(format!("write of chunk {}", i));
             break;
         }
-        enters += 1;
+        pending.clear();
         let want = enters;
         ok = wait(&mut run, &mut child, &mut exited, &format!("newline for Enter #{}", want), &|r| newlines(&r.stdout) >= want);
-        if ok && chunk.submits && i + 1 < chunks.len() {
+        if ok && pending_submits && i + 1 < chunks.len() {
             ok = wait(&mut run, &mut child, &mut exited, &format!("raw mode after line #{}", want), &|_| is_raw(m));
         }
+        pending_submits = false;
     }
     // The last chunk ends the session
     if exited.is_none() && run.stalled.is_none() {
